@@ -19,7 +19,9 @@ META = {
         'in the tuple (so it is itemised, not dropped). R5 every node class of the error tree calls its pre hook, its '
         'children, its post hook; both visitors implement every hook of error_visitor. R6 AK902/903/904 are built '
         'from st_count_orig, st_count_recv, st_count_recv - count_failed_st(), those fields come from GE01 and the '
-        'reader\'s st_count, and the 997 and 999 visitors agree.'),
+        'reader\'s st_count, and the 997 and 999 visitors agree. R7 an error handed to a sink of err_handler is recorded or the '
+        'failure surfaces (no catch-all handler that only logs around the recording call), and add_error of every class that can be '
+        'the current segment node accepts the arguments seg_error passes.'),
     'not_decided': 'equality of the totals with an independent count; that the right position is itemised (see C03); '
                    'addressing back to the sender beyond the ISA05-08/GS02-03 swap',
     'trusted_base': ['shipped 997/999 maps as the oracle for the acknowledgement code lists'],
@@ -378,6 +380,46 @@ def r6_totals(ctx):
     yield Ob('error_handler:err_gs._get_ack_code accepts only as the fall-through', ok, ctx.floc(f), '' if ok else 'returns %s' % rets)
 
 
+def r7_sinks_do_not_swallow(ctx):
+    """an error handed to a sink of err_handler must be recorded or the failure must surface: the recording call may
+    not sit in a try whose catch-all handler neither re-raises nor records it elsewhere (the verdict is computed from
+    the recorded errors only)"""
+    for sink in ('isa_error', 'gs_error', 'st_error', 'seg_error', 'ele_error'):
+        f = ctx.func('error_handler', 'err_handler.' + sink)
+        recs = [c for c in A.calls_in(f) if A.call_target(c)[1] == 'add_error']
+        if not recs:
+            raise AnalysisError('err_handler.%s no longer records through add_error' % sink)
+        for c in recs:
+            swallowed = False
+            p_ = A.parent(c)
+            child = c
+            while p_ is not None and p_ is not f:
+                if isinstance(p_, ast.Try) and child in p_.body:
+                    for h in p_.handlers:
+                        catch_all = h.type is None or (path_of(h.type) or '') in ('Exception', 'BaseException')
+                        reraises = any(isinstance(x, ast.Raise) for x in ast.walk(h))
+                        records = any(isinstance(x, ast.Call) and A.call_target(x)[1] in ('add_error', 'isa_error', 'gs_error', 'st_error') for x in ast.walk(h))
+                        if catch_all and not reraises and not records:
+                            swallowed = True
+                child = p_
+                p_ = A.parent(p_)
+            yield Ob('error_handler:err_handler.%s records the error or fails loudly' % sink, not swallowed, ctx.floc(f, c),
+                     '' if not swallowed else 'the recording call sits in a catch-all `except` that only logs: when no segment node can take the error '
+                     '(segment-level error while the current node is an ISA/GS/ST node, or before any ST) it is dropped and the verdict stays True')
+    # arity agreement of add_error across every class that can be the current segment node
+    f = ctx.func('error_handler', 'err_handler.seg_error')
+    call = [c for c in A.calls_in(f) if A.call_target(c) == ('self.cur_seg_node', 'add_error')]
+    if call:
+        nargs = len(call[0].args)
+        for cname in ('err_isa', 'err_gs', 'err_st', 'err_seg'):
+            g = ctx.func('error_handler', cname + '.add_error')
+            npar = len(g.args.args) - 1
+            ndef = len(g.args.defaults)
+            ok = npar - ndef <= nargs <= npar
+            yield Ob('error_handler:%s.add_error accepts the %d arguments seg_error passes to the current segment node' % (cname, nargs), ok, ctx.floc(g),
+                     '' if ok else '%s.add_error takes %d argument(s); seg_error passes %d when this node is current: TypeError, swallowed by the bare except' % (cname, npar, nargs))
+
+
 RULES = [
     Rule('C05.R1', 'verdict True only through valid and error-count-zero edges; other exits False', r1_verdict, floor=5),
     Rule('C05.R2', 'sibling "has errors" deciders consult every stored evidence field', r2_evidence, floor=8),
@@ -385,4 +427,5 @@ RULES = [
     Rule('C05.R4', 'acknowledgement code tuples vs the 997/999 maps and the codes actually reported', r4_code_tables, floor=10),
     Rule('C05.R5', 'every error-tree node visited; both visitors implement every hook', r5_visitors, floor=12),
     Rule('C05.R6', 'AK9 totals wiring and 997/999 sibling agreement', r6_totals, floor=12),
+    Rule('C05.R7', 'error sinks record or fail loudly; add_error arity agrees across current-node classes', r7_sinks_do_not_swallow, floor=8),
 ]
